@@ -68,6 +68,16 @@ var sigTable = []string{
 	"unify-max-depth-exceeded",
 	"copyexpr-indexlist-nil-index",
 	"redundant-type-partial-instantiation",
+	"sa1001-parenthesised-callee",
+	"sa5012-call-source-defer-go",
+	"sa5012-typeparam-array-length",
+	"callcheck-method-expression-receiver",
+	"sa1003-position-in-package-initialiser",
+	"range-over-func-call-without-position",
+	"sa1019-instantiated-literal-selector",
+	"fakexml-embedded-pointer-cycle",
+	"fakereflect-fieldbyindex-embedded-pointer",
+	"no-termination",
 }
 
 const frequentSigs = 4
@@ -129,6 +139,24 @@ func crashSig(msg string) string {
 		// an identifier without an object: the syntax tree was modified after type checking, which
 		// is what CopyExpr does to the index lists of explicit instantiations (same root cause)
 		return "copyexpr-indexlist-nil-index"
+	case strings.Contains(pm, "not *ast.SelectorExpr") && has("staticcheck/sa1001"):
+		return "sa1001-parenthesised-callee"
+	case strings.Contains(pm, "not *ast.CallExpr") && has("staticcheck/sa5012"):
+		return "sa5012-call-source-defer-go"
+	case strings.Contains(pm, "not *types.Array") && has("staticcheck/sa5012"):
+		return "sa5012-typeparam-array-length"
+	case strings.Contains(pm, "no file found for node with position -") && has("staticcheck/sa1003"):
+		return "sa1003-position-in-package-initialiser"
+	case strings.Contains(pm, "no file found for node with position -") && has("staticcheck/sa5007"):
+		return "range-over-func-call-without-position"
+	case strings.Contains(pm, "unsupported selector") && has("staticcheck/sa1019"):
+		return "sa1019-instantiated-literal-selector"
+	case strings.Contains(pm, "stack overflow") && strings.Contains(msg, "fakexml.getTypeInfo"):
+		return "fakexml-embedded-pointer-cycle"
+	case strings.Contains(pm, "is *types.Pointer, not *types.Struct") && has("fakereflect"):
+		return "fakereflect-fieldbyindex-embedded-pointer"
+	case strings.Contains(pm, "nil pointer dereference") && has("callcheck.checkCalls") && has("staticcheck/sa101"):
+		return "callcheck-method-expression-receiver"
 	case strings.Contains(msg, "RedundantTypeInDeclarationChecker") && strings.Contains(pm, "cannot infer"):
 		return "redundant-type-partial-instantiation"
 	}
